@@ -42,6 +42,9 @@ type H interface {
 	Emitter(k int) cff.Emitter
 	// SharedEmitter returns an emitter value shared by all executions of the run.
 	SharedEmitter() cff.Emitter
+	// NextEmitter returns the execution's next recording emitter (0, 1, ...):
+	// the same argument text, a different value each time it is evaluated.
+	NextEmitter() cff.Emitter
 	// EmitterSlice returns a slice of emitters (the first one cff.NopEmitter())
 	// owned by the caller's application and shared by all executions of the run.
 	EmitterSlice() []cff.Emitter
